@@ -63,6 +63,12 @@ V10_XML_WIDE = V10_XML.replace(u"<value>1<type>int</type></value>",
 OTHER_XML = u"""<?xml version="1.0"?>\n<html><body><p>%(tag)s</p></body></html>\n"""
 MALFORMED = u"""<?xml version="1.0"?>\n<odML version="1"><section><name>%(tag)s</name>\n"""
 TEXT = u"just some text %(tag)s\n"
+# texts that are not odML and fail in different places of the different parsers (plain words, text
+# that starts like YAML / JSON / XML and breaks later, flow syntax left open, tabs, directives)
+TEXTS = [TEXT, u"note: measured on day one: see the lab book %(tag)s\n", u"{\"Document\": {\"author\": \"%(tag)s\",\n",
+         u"- a\n b: c %(tag)s\n", u"key: [unclosed %(tag)s\n", u"\tindented: %(tag)s\n", u"%%YAML 9.9\n--- %(tag)s\n",
+         u"Document:\n  author: %(tag)s\n odml-version: '1.1'\n", u"<odML %(tag)s\n", u"[1, 2, {%(tag)s\n",
+         u"a: b\na: *nowhere %(tag)s\n", u"\"%(tag)s\n", u"? %(tag)s\n: - :\n", u"null\n", u"42\n", u"[]\n"]
 
 KIND_EXT = {"xml10w": ".xml", "xml11w": ".xml", "xml10": ".xml", "json10": ".json", "yaml10": ".yaml", "xml11": ".xml", "odml11": ".odml",
             "json11": ".json", "yaml11": ".yaml", "empty": ".xml", "empty_json": ".json",
@@ -104,7 +110,7 @@ def content(kind, tag):
     if kind.startswith("empty"):
         return u""
     if kind.startswith("text"):
-        return TEXT % {"tag": tag}
+        return TEXTS[sum(ord(ch) for ch in tag) % len(TEXTS)] % {"tag": tag}
     if kind == "malformed":
         return MALFORMED % {"tag": tag}
     if kind == "othervocab":
